@@ -12,6 +12,7 @@ import (
 
 	"verif/internal/core"
 	"verif/internal/flow"
+	"verif/internal/load"
 )
 
 const (
@@ -23,15 +24,34 @@ const (
 type c11Registry struct {
 	rel   string
 	field *types.Var
+	owner string // "Namespace"
 	name  string // "Namespace.pipelines"
 }
 
+// c11Registries resolves the entity registries by role: every sync.Map field of
+// trafficcontroller.Namespace and of supervisor.Supervisor (the exported owner types are the
+// anchors; the unexported field names are not).
 func c11Registries(c *core.Ctx) []c11Registry {
 	var out []c11Registry
-	for _, r := range [][3]string{{c11TC, "Namespace", "pipelines"}, {c11TC, "Namespace", "trafficGates"},
-		{c11Sup, "Supervisor", "businessControllers"}, {c11Sup, "Supervisor", "systemControllers"}} {
-		if f := structField(c, r[0], r[1], r[2]); f != nil {
-			out = append(out, c11Registry{rel: r[0], field: f, name: r[1] + "." + r[2]})
+	for _, r := range [][2]string{{c11TC, "Namespace"}, {c11Sup, "Supervisor"}} {
+		n := namedType(c, r[0], r[1])
+		if n == nil {
+			continue
+		}
+		st, ok := n.Underlying().(*types.Struct)
+		if !ok {
+			c.Errorf("anchor: %s.%s is not a struct", r[0], r[1])
+			continue
+		}
+		k := 0
+		for i := 0; i < st.NumFields(); i++ {
+			if c11IsNamed(st.Field(i).Type(), "sync", "Map") {
+				out = append(out, c11Registry{rel: r[0], field: st.Field(i), owner: r[1], name: r[1] + "." + st.Field(i).Name()})
+				k++
+			}
+		}
+		if k < 2 {
+			c.Errorf("anchor: expected two sync.Map registries in %s.%s, found %d", r[0], r[1], k)
 		}
 	}
 	return out
@@ -354,11 +374,21 @@ func c11NoOp(c *core.Ctx) {
 	}
 
 	// ObjectRegistry.applyConfig
-	f := fn(c, c11Sup, "ObjectRegistry", "applyConfig")
-	if f == nil {
+	// role: the method of ObjectRegistry that creates entities from configuration text
+	var f *flow.Func
+	cands := funcsByRole(c, c11Sup, func(g *flow.Func, fd *ast.FuncDecl) bool {
+		if fd.Recv == nil || len(fd.Recv.List) != 1 || load.RecvName(fd.Recv.List[0].Type) != "ObjectRegistry" {
+			return false
+		}
+		return len(callsTo(g, g.Body, true, "(*"+c11Sup+".Supervisor).NewObjectEntityFromConfig")) > 0
+	})
+	if len(cands) != 1 {
+		c.Errorf("R-C11-4: anchor: expected one method of ObjectRegistry that builds entities with NewObjectEntityFromConfig, found %d", len(cands))
 		return
 	}
-	name := fname(c11Sup, "ObjectRegistry", "applyConfig")
+	f = cands[0]
+	c.Count("functions_analysed", 1)
+	name := declName(f.Pkg, f.Node.(*ast.FuncDecl))
 	// the new entity: variable assigned from NewObjectEntityFromConfig
 	var entObj types.Object
 	ast.Inspect(f.Body, func(n ast.Node) bool {
@@ -493,15 +523,12 @@ func c11Isolation(c *core.Ctx) {
 						continue
 					}
 					okSel[ast.Unparen(ast.Unparen(call.Fun).(*ast.SelectorExpr).X).(*ast.SelectorExpr)] = true
-					if r.name == "Supervisor.systemControllers" {
-						continue // keyed by kind, created once at start-up
-					}
 					m := methodName(call)
 					if (m == "Store" || m == "LoadOrStore" || m == "Swap") && len(call.Args) >= 2 {
 						stores++
 						ok := c11KeyIsOwnName(f, fd, parents, call, call.Args[0], call.Args[1], specM, nameM)
 						c.Check(ok, "R-C11-5", c11Uniq(c, "R-C11-5", declName(p, fd)+"|"+r.name+" keyed by the entity's own name"), pos(c, call),
-							"the key is entity.Spec().Name() of the stored entity (or the key of the event map the entity was taken from)",
+							"the key is entity.Spec().Name() of the stored entity (or the key of the event map the entity was taken from, or the kind of a kind-named system object)",
 							"the entity is stored under a key that is not derived from its own name: creating or updating this object replaces (makes unavailable) the object registered under that other key")
 					}
 				}
@@ -531,7 +558,7 @@ func c11Isolation(c *core.Ctx) {
 	for _, r := range regs {
 		c.RequireCount("R-C11-5", "uses of "+r.name, uses[r.name], 3)
 	}
-	c.RequireCount("R-C11-5", "keyed Store sites", stores, 8)
+	c.RequireCount("R-C11-5", "keyed Store sites", stores, 9)
 	bad := false
 	for _, o := range c.Obligations {
 		if o.Rule == "R-C11-5" && o.Verdict == core.Violated && strings.Contains(o.Construct, "accessed only through") {
@@ -563,7 +590,12 @@ func c11KeyIsOwnName(f *flow.Func, fd *ast.FuncDecl, parents map[ast.Node]ast.No
 		id, ok := ast.Unparen(c11Recv(c2)).(*ast.Ident)
 		return ok && f.Info.Uses[id] == vobj
 	}
-	if isOwn(key) {
+	// objects named by their kind (system controllers): <object>.Kind()
+	isKind := func(e ast.Expr) bool {
+		call, ok := ast.Unparen(e).(*ast.CallExpr)
+		return ok && ifaceMethodCall(f, call, "pkg/supervisor", "Object", "Kind")
+	}
+	if isOwn(key) || isKind(key) {
 		return true
 	}
 	kid, _ := ast.Unparen(key).(*ast.Ident)
@@ -587,7 +619,7 @@ func c11KeyIsOwnName(f *flow.Func, fd *ast.FuncDecl, parents map[ast.Node]ast.No
 			for i, l := range as.Lhs {
 				if lid, ok := l.(*ast.Ident); ok && (f.Info.Defs[lid] == kobj || f.Info.Uses[lid] == kobj) {
 					n++
-					if len(as.Rhs) == len(as.Lhs) && isOwn(as.Rhs[i]) {
+					if len(as.Rhs) == len(as.Lhs) && (isOwn(as.Rhs[i]) || isKind(as.Rhs[i])) {
 						good++
 					}
 				}
@@ -608,8 +640,20 @@ func c11PipelineImmutable(c *core.Ctx) {
 		return
 	}
 	fields := c11FieldsOf(c, c11PL, "Pipeline")
-	if ff := structField(c, c11PL, "FlowNode", "filter"); ff != nil {
-		fields[ff] = "FlowNode.filter"
+	// the filter instance bound to a flow node: the field(s) of FlowNode of type filters.Filter
+	if fnT := namedType(c, c11PL, "FlowNode"); fnT != nil {
+		if st, ok := fnT.Underlying().(*types.Struct); ok {
+			k := 0
+			for i := 0; i < st.NumFields(); i++ {
+				if c11IsNamed(st.Field(i).Type(), Mod+"pkg/filters", "Filter") {
+					fields[st.Field(i)] = "FlowNode." + st.Field(i).Name()
+					k++
+				}
+			}
+			if k == 0 {
+				c.Errorf("R-C11-2: anchor: FlowNode has no field of type filters.Filter")
+			}
+		}
 	}
 	whole := map[*types.Named]bool{}
 	if n := namedType(c, c11PL, "Pipeline"); n != nil {
